@@ -565,30 +565,50 @@ class Evaluator:
         fr.trystack.pop()
         if not body_done and st.orelse:
             body_done = self.block(st.orelse, fr)
-        # explicit raise exits of the body that a handler catches are re-routed into the handler
-        caught_guards = {}
-        for ex in list(fr.summary.exits[n0:]):
-            if ex.kind != "raise":
-                continue
-            for h, names in handled:
-                if _exc_matches(ex.exc, names):
-                    fr.summary.exits.remove(ex)
-                    caught_guards.setdefault(id(h), []).append(tm.land(list(ex.guard[len(fr.guard):])))
-                    break
+        # Explicit raise exits of the body that a handler catches are replaced, in place, by the exits of that handler
+        # run under the raise's guard (exits form an ordered decision list, so position matters).  One more handler run
+        # under an opaque `except` marker stands for exceptions raised by primitives inside the body.
         results = []
-        for h, names in handled:
-            cg = caught_guards.get(id(h), [])
-            g = tm.lor(cg + [T("except", (tuple(names), _try_key(st)), tm.BOOL)])
-            fh = fr.fork(g)
+        body_exits = fr.summary.exits[n0:]
+        del fr.summary.exits[n0:]
+        new_exits = []
+
+        def run_handler(h, names, extra_guard, facts):
+            fh = fr.fork()
+            fh.guard = list(fr.guard) + list(extra_guard)
+            fh.facts = list(fr.facts) + list(facts)
             fh.env = clone(pre_env)
-            # variables assigned in the try body are unknown in the handler unless unchanged
             for nm in assigned_names(st.body):
                 if nm in fr.env and not tm.veq(fr.env.get(nm), pre_env.get(nm)):
                     fh.env[nm] = T("maybe", (tm._fz(pre_env.get(nm, T("undef", (nm,)))), tm._fz(fr.env[nm])))
             if h.name:
                 fh.env[h.name] = T("excobj", (tuple(names), _try_key(st)))
+            k0 = len(fr.summary.exits)
             hd = self.block(h.body, fh)
+            hexits = fr.summary.exits[k0:]
+            del fr.summary.exits[k0:]
+            return fh, hd, hexits
+
+        for h, names in handled:
+            g = T("except", (tuple(names), _try_key(st)), tm.BOOL)
+            fh, hd, hexits = run_handler(h, names, [g], [])
+            new_exits.extend(hexits)
             results.append((g, fh, hd))
+        for ex in body_exits:
+            caught = None
+            if ex.kind == "raise":
+                for h, names in handled:
+                    if _exc_matches(ex.exc, names):
+                        caught = (h, names)
+                        break
+            if caught is None:
+                new_exits.append(ex)
+                continue
+            extra = list(ex.guard[len(fr.guard):])
+            fh, hd, hexits = run_handler(caught[0], caught[1], extra, [])
+            new_exits.extend(hexits)
+            results.append((tm.land(extra), fh, hd))
+        fr.summary.exits.extend(new_exits)
         if st.finalbody:
             self.block(st.finalbody, fr)
         live = [(g, fh) for g, fh, hd in results if not hd]
@@ -1230,6 +1250,8 @@ class Evaluator:
         if meth in ("startswith", "endswith") and len(pos) == 1:
             if tm.is_conc(recv) and tm.is_conc(pos[0]):
                 return getattr(recv, meth)(pos[0])
+            if isinstance(recv, T) and recv.op == "hex" and isinstance(pos[0], str) and any(c not in "0123456789abcdef" for c in pos[0]):
+                return False
             return T(meth, (recv, pos[0]), tm.BOOL)
         if meth in ("lower", "upper", "strip", "isupper", "islower", "lstrip", "rstrip", "split", "splitlines", "zfill",
                     "index", "count", "find", "isdigit", "title", "replace", "partition", "rsplit"):
